@@ -104,6 +104,9 @@ type tok struct {
 	emptyID bool
 	// lite: near-miss string (one edit away from something the provider compares); goes through one request per endpoint
 	lite bool
+	// provSig: a JWT that carries a valid signature of the provider's signing key (what the provider issued, and the
+	// harness-made strings that stand for key sharing); such a string can be re-signed into a twin (lean_test.go)
+	provSig bool
 }
 
 type world struct {
@@ -585,6 +588,10 @@ func build(t *testing.T, c *engine.Check, thorough bool, pt part) *world {
 		}
 	}
 
+	for _, tk := range w.toks {
+		tk.provSig = (tk.gen == 1 && tk.kind == "jwt-at") || (tk.gen == 0 && provSigned(tk.str))
+	}
+
 	// operation alphabet
 	w.ops1 = map[string][]string{}
 	uiChannels := []string{"hdr", "form", "hdr-lc", "hdr-uc", "query", "basic+form"}
@@ -836,10 +843,13 @@ type S struct {
 // str is the string the actors present for tk in state s.
 func (w *world) str(s S, tk *tok) string {
 	str := w.issued(s, tk)
-	if w.lean && tk.genuine == genAT && tk.kind == "jwt-at" && expiredButStored(s.St, tk.id, w.now(s)) {
-		// lean storage: nothing but the framework's exp check stands between this string and the record. Presented
-		// as a twin (same header and payload, fresh signature) that no request of this process has carried yet.
-		return resign(str)
+	if w.lean && tk.provSig {
+		// lean storage: nothing but the framework's exp check stands between an expired JWT and the record it names.
+		// Past its exp the string is presented as a twin (same header and payload, fresh signature) that no request
+		// of this process has carried yet.
+		if exp, ok := jwtExp(str); ok && !w.now(s).Before(exp) {
+			return resign(str)
+		}
 	}
 	return str
 }
@@ -1903,12 +1913,14 @@ func (w *world) doEndSession(s S, p []string, router, host int, do doFn, resp **
 
 func TestCheck(t *testing.T) {
 	c := engine.Start(t, "C08")
-	c.SetRule("E2: breadth-first over (reference-storage clone, clock bucket [, first host served / both hosts served]); from every reachable state every operation of the alphabet {userinfo(s,channel), introspect(s,caller), revoke(s,by,hint), exchange(s,role,declared type), end_session(family,form), refresh(family)} x {Provider router, LegacyServer router} [x {host a, host b} for a provider with a request-derived issuer] x token-string alphabet (genuine access / refresh / id tokens, tampered, re-sealed, other-issuer, wrong key, algorithm-confused, edited, expired-but-signed, unissued, garbage, empty) plus the clock jump is executed once on the real handlers inside a synctest bubble; response and storage effect judged by the liveness model; distinct = (oracle rule, observed outcome class)")
+	c.SetRule("E2: breadth-first over (reference-storage clone, clock bucket [, first host served / both hosts served]); from every reachable state every operation of the alphabet {userinfo(s,channel), introspect(s,caller), revoke(s,by,hint), exchange(s,role,declared type), end_session(family,form), refresh(family), use-revoke-use(s), use-logout-use(s), use-expire-use(s)} x {Provider router, LegacyServer router} [x {host a, host b} for a provider with a request-derived issuer] x token-string alphabet (genuine access / refresh / id tokens, tampered, re-sealed, other-issuer, wrong key, algorithm-confused, edited, expired-but-signed, unissued, garbage, empty) plus the clock jump is executed once on the real handlers inside a synctest bubble; one exploration runs the provider over a storage variant that leaves the exp of JWT access tokens to the framework; response and storage effect judged by the liveness model; distinct = (oracle rule, observed outcome class)")
 	c.Assume("refstore implements the documented storage contract (liveness, subject and audience checks; RevokeToken refuses other clients, accepts unknown tokens) and is part of the trusted base",
 		"the resource server 'api' is put into the audience of every access token by editing the stored token after issuance (storage policy), the JWT aud claim is not edited",
 		"strings signed with the provider's own signing key by the harness (other issuer / expired / unissued jti / other subject) stand for a multi-tenant or key-sharing deployment; none of them names a live (issuer, jti, subject, exp) tuple; declared as id_token (which nobody tracks) the unexpired right-issuer ones are left open",
 		"tokens created by a successful exchange are discarded after the step (the actors never present them)",
 		"a panic in a handler is classified 'panic' and is property C09's business; it satisfies must-refuse, not must-serve",
+		"storage variants: the reference storage checks the expiry of every access-token record itself; the lean variant (refstore minus that one check for records of clients whose access tokens are JWTs, records kept after expiry - what the repository's example storage does at introspection) leaves the exp of a JWT access token to the framework, which verified it; the oracle is the same under both: an expired token is never honoured",
+		"lean-storage part: a JWT signed by the provider's key whose exp has passed is presented to the single-request operations as a twin (identical header and payload, fresh ECDSA signature of the same key) that no request of the process has carried before, so that 'issue - expire - first use' is judged independently of what other explored states presented earlier; only refusal is ever demanded of a twin; the history 'use while valid - expire - use' is the operation use-expire-use, which presents the string as issued on a provider of its own and is complete in itself",
 		"opaque token ciphertexts use the provider's random IVs; every tampered string is decrypted when the alphabet is built and classified by what it really decrypts to (names a live id / empty id / noise), so verdicts do not depend on the IV",
 		"refstore takes an empty actor token id for 'no actor token': a string that decrypts to ':<subject>' (empty id, which the library parses as a well-formed opaque token) is left open in the actor role of token exchange and must be refused everywhere else",
 		"id tokens are tracked by nobody (refstore vouches for every id token the library verified): an unexpired id token must be accepted as exchange subject / actor while its session still has a token in the store, is left open afterwards, and must be refused once expired",
